@@ -1293,118 +1293,118 @@ static const scen_t scens[] = {
     /* name, api, quick, flags, env, nvariants, maxdrain, prep, call, use,
      * after_fail */
     /* --- ABT_init */
-    { "init", "init:std", "ABT_init", Q, F_INIT, ENV_STD, 1, 0, NULL, NULL, NULL, NULL },
-    { "init", "init:mmap_pages", "ABT_init", Q, F_INIT | F_FALLBACK, ENV_MMAP, 1, 0,
+    { "init+streams+scheds+pools", "init:std", "ABT_init", Q, F_INIT, ENV_STD, 1, 0, NULL, NULL, NULL, NULL },
+    { "init+streams+scheds+pools", "init:mmap_pages", "ABT_init", Q, F_INIT | F_FALLBACK, ENV_MMAP, 1, 0,
       NULL, NULL, NULL, NULL },
-    { "init:other-environments", "init:hugepage_thp", "ABT_init", 0, F_INIT | F_FALLBACK, ENV_HUGE, 1, 0,
+    { "other-environments", "init:hugepage_thp", "ABT_init", 0, F_INIT | F_FALLBACK, ENV_HUGE, 1, 0,
       NULL, NULL, NULL, NULL },
-    { "init:other-environments", "init:stack_guard", "ABT_init", 0, F_INIT, ENV_GUARD, 1, 0, NULL, NULL,
+    { "other-environments", "init:stack_guard", "ABT_init", 0, F_INIT, ENV_GUARD, 1, 0, NULL, NULL,
       NULL, NULL },
-    { "init:other-environments", "init:keytable64", "ABT_init", 0, F_INIT, ENV_KT64, 1, 0, NULL, NULL,
+    { "other-environments", "init:keytable64", "ABT_init", 0, F_INIT, ENV_KT64, 1, 0, NULL, NULL,
       NULL, NULL },
     /* --- execution streams */
-    { "streams", "xstream_create{null,sched,with_rank}", "ABT_xstream_create", Q, 0,
+    { "init+streams+scheds+pools", "xstream_create{null,sched,with_rank}", "ABT_xstream_create", Q, 0,
       ENV_STD, 3, 2, NULL, c_xstream_create, u_xstream, NULL },
-    { "streams+units:other-environments", "xstream_create:mmap_pages", "ABT_xstream_create", 0, F_FALLBACK,
+    { "other-environments", "xstream_create:mmap_pages", "ABT_xstream_create", 0, F_FALLBACK,
       ENV_MMAP, 1, 1, NULL, c_xstream_create, u_xstream, NULL },
-    { "streams+units:other-environments", "xstream_create:max_xstreams_warning", "ABT_xstream_create", 0,
+    { "other-environments", "xstream_create:max_xstreams_warning", "ABT_xstream_create", 0,
       F_FALLBACK | F_NODRY, ENV_LOG, 1, 0, NULL, c_xstream_create, u_xstream, NULL },
-    { "streams", "xstream_create_basic{basic,prio,randws,wait,pools}",
+    { "init+streams+scheds+pools", "xstream_create_basic{basic,prio,randws,wait,pools}",
       "ABT_xstream_create_basic", Q, 0, ENV_STD, 5, 1, p_one_pool,
       c_xstream_create_basic, u_xstream_basic, af_one_pool },
-    { "streams", "xstream_revive", "ABT_xstream_revive", Q, 0, ENV_STD, 1, 0, p_joined_xs,
+    { "init+streams+scheds+pools", "xstream_revive", "ABT_xstream_revive", Q, 0, ENV_STD, 1, 0, p_joined_xs,
       c_xstream_revive, u_xstream_revive, af_joined_xs },
-    { "streams", "set_main_sched:self{null,spare,upool}", "ABT_xstream_set_main_sched", Q,
+    { "init+streams+scheds+pools", "set_main_sched:self{null,spare,upool}", "ABT_xstream_set_main_sched", Q,
       F_UNIT, ENV_STD, 3, 1, p_set_main_sched, c_set_main_sched, u_set_main_sched,
       NULL },
-    { "streams", "set_main_sched_basic:self{auto,upool,pool}",
+    { "init+streams+scheds+pools", "set_main_sched_basic:self{auto,upool,pool}",
       "ABT_xstream_set_main_sched_basic", Q, F_UNIT, ENV_STD, 3, 1,
       p_set_main_sched_basic, c_set_main_sched_basic, u_set_main_sched_basic,
       af_set_main_sched_basic },
-    { "streams+units:other-environments", "set_main_sched:terminated{null,basic}", "ABT_xstream_set_main_sched", 0,
+    { "other-environments", "set_main_sched:terminated{null,basic}", "ABT_xstream_set_main_sched", 0,
       0, ENV_STD, 2, 0, p_joined_xs, c_set_main_sched_term,
       u_set_main_sched_term, af_joined_xs },
     /* --- schedulers */
-    { "scheds+pools", "sched_create{user,basic,prio,randws,wait,nopools}", "ABT_sched_create",
+    { "init+streams+scheds+pools", "sched_create{user,basic,prio,randws,wait,nopools}", "ABT_sched_create",
       Q, 0, ENV_STD, 6, 0, p_one_pool, c_sched_create, u_sched_create,
       af_sched_create },
-    { "scheds+pools", "sched_config_create{empty,4vars}", "ABT_sched_config_create", Q, 0,
+    { "init+streams+scheds+pools", "sched_config_create{empty,4vars}", "ABT_sched_config_create", Q, 0,
       ENV_STD, 2, 0, NULL, c_sched_config_create, u_sched_config, NULL },
-    { "scheds+pools", "sched_config_set{new,overwrite}", "ABT_sched_config_set", Q, 0, ENV_STD,
+    { "init+streams+scheds+pools", "sched_config_set{new,overwrite}", "ABT_sched_config_set", Q, 0, ENV_STD,
       2, 0, NULL, c_sched_config_set, u_sched_config_set, NULL },
     /* --- pools */
-    { "scheds+pools", "pool_create_basic{fifo,fifo_wait,randws}", "ABT_pool_create_basic", Q, 0,
+    { "init+streams+scheds+pools", "pool_create_basic{fifo,fifo_wait,randws}", "ABT_pool_create_basic", Q, 0,
       ENV_STD, 3, 0, NULL, c_pool_create_basic, u_pool, NULL },
-    { "scheds+pools", "pool_create{user_def,config,old_def}", "ABT_pool_create", Q, 0, ENV_STD,
+    { "init+streams+scheds+pools", "pool_create{user_def,config,old_def}", "ABT_pool_create", Q, 0, ENV_STD,
       3, 0, NULL, c_pool_create, u_pool, NULL },
-    { "scheds+pools", "pool_config_create", "ABT_pool_config_create", Q, 0, ENV_STD, 1, 0, NULL,
+    { "init+streams+scheds+pools", "pool_config_create", "ABT_pool_config_create", Q, 0, ENV_STD, 1, 0, NULL,
       c_pool_config_create, u_pool_config, NULL },
-    { "scheds+pools", "pool_config_set{new,overwrite}", "ABT_pool_config_set", Q, 0, ENV_STD, 2,
+    { "init+streams+scheds+pools", "pool_config_set{new,overwrite}", "ABT_pool_config_set", Q, 0, ENV_STD, 2,
       0, NULL, c_pool_config_set, u_pool_config_set, NULL },
-    { "scheds+pools", "pool_user_def_create", "ABT_pool_user_def_create", Q, 0, ENV_STD, 1, 0,
+    { "init+streams+scheds+pools", "pool_user_def_create", "ABT_pool_user_def_create", Q, 0, ENV_STD, 1, 0,
       NULL, c_pool_user_def_create, u_pool_user_def, NULL },
-    { "scheds+pools", "pool_add_sched{p0,upool,auto+p0}", "ABT_pool_add_sched", Q,
+    { "init+streams+scheds+pools", "pool_add_sched{p0,upool,auto+p0}", "ABT_pool_add_sched", Q,
       F_UNIT, ENV_STD, 3, 2, p_add_sched, c_pool_add_sched, u_pool_add_sched,
       af_add_sched },
     { "pool_add_sched:automatic->upool", "pool_add_sched{auto+upool}",
       "ABT_pool_add_sched", Q, F_UNIT, ENV_STD, 1, 2, p_add_sched3,
       c_pool_add_sched3, u_pool_add_sched3, af_add_sched3 },
     /* --- work units */
-    { "unit-creation", "thread_create{p0,p1,upool,unnamed}", "ABT_thread_create", Q, F_UNIT, ENV_STD,
+    { "work-units", "thread_create{p0,p1,upool,unnamed}", "ABT_thread_create", Q, F_UNIT, ENV_STD,
       4, 2, NULL, c_thread_create, u_thread_create, NULL },
-    { "unit-creation", "thread_create:attr{dflt,size,stack,cb,size+cb}", "ABT_thread_create", Q,
+    { "work-units", "thread_create:attr{dflt,size,stack,cb,size+cb}", "ABT_thread_create", Q,
       0, ENV_STD, 5, 3, p_thread_attr, c_thread_create_attr,
       u_thread_create_attr, af_attr },
-    { "streams+units:other-environments", "thread_create:attr+upool{dflt,size,stack,cb,size+cb}",
+    { "other-environments", "thread_create:attr+upool{dflt,size,stack,cb,size+cb}",
       "ABT_thread_create", 0, F_UNIT, ENV_STD, 5, 3, p_thread_attr,
       c_thread_create_attr_upool, u_thread_create_attr_upool, af_attr },
-    { "streams+units:other-environments", "thread_create:attr:keytable64{..}", "ABT_thread_create", 0, 0, ENV_KT64,
+    { "other-environments", "thread_create:attr:keytable64{..}", "ABT_thread_create", 0, 0, ENV_KT64,
       5, 1, p_thread_attr, c_thread_create_attr, u_thread_create_attr, af_attr },
-    { "streams+units:other-environments", "thread_create:stack_guard{p0,p1,upool,unnamed}", "ABT_thread_create", 0,
+    { "other-environments", "thread_create:stack_guard{p0,p1,upool,unnamed}", "ABT_thread_create", 0,
       0, ENV_GUARD, 4, 1, NULL, c_thread_create, u_thread_create, NULL },
-    { "streams+units:other-environments", "thread_create:mmap_pages{p0,p1,upool,unnamed}", "ABT_thread_create", 0,
+    { "other-environments", "thread_create:mmap_pages{p0,p1,upool,unnamed}", "ABT_thread_create", 0,
       F_FALLBACK, ENV_MMAP, 4, 1, NULL, c_thread_create, u_thread_create, NULL },
-    { "unit-creation", "thread_create:external{p0,p1,upool,unnamed}", "ABT_thread_create", Q,
+    { "work-units", "thread_create:external{p0,p1,upool,unnamed}", "ABT_thread_create", Q,
       F_EXT, ENV_STD, 4, 0, NULL, c_thread_create, u_thread_create, NULL },
-    { "streams+units:other-environments", "thread_create:attr:external{..}", "ABT_thread_create", 0, F_EXT, ENV_STD,
+    { "other-environments", "thread_create:attr:external{..}", "ABT_thread_create", 0, F_EXT, ENV_STD,
       5, 0, p_thread_attr, c_thread_create_attr, u_thread_create_attr, af_attr },
-    { "unit-creation", "thread_create_to{dflt,attr}", "ABT_thread_create_to", Q, 0, ENV_STD, 2, 2,
+    { "work-units", "thread_create_to{dflt,attr}", "ABT_thread_create_to", Q, 0, ENV_STD, 2, 2,
       p_create_to, c_thread_create_to, u_thread_create_to, af_create_to },
-    { "unit-creation", "thread_create_on_xstream{es1,es0}", "ABT_thread_create_on_xstream", Q, 0,
+    { "work-units", "thread_create_on_xstream{es1,es0}", "ABT_thread_create_on_xstream", Q, 0,
       ENV_STD, 2, 1, NULL, c_thread_create_on_xstream, u_thread_named, NULL },
-    { "unit-creation", "task_create{p0,p1,upool,unnamed,on_xstream}", "ABT_task_create", Q, F_UNIT,
+    { "work-units", "task_create{p0,p1,upool,unnamed,on_xstream}", "ABT_task_create", Q, F_UNIT,
       ENV_STD, 5, 2, NULL, c_task_create, u_task_create, NULL },
-    { "streams+units:other-environments", "task_create:external{..}", "ABT_task_create", 0, F_EXT, ENV_STD, 5, 0,
+    { "other-environments", "task_create:external{..}", "ABT_task_create", 0, F_EXT, ENV_STD, 5, 0,
       NULL, c_task_create, u_task_create, NULL },
-    { "unit-creation", "revive->upool{thread,task,revive_to}", "ABT_thread_revive", Q, F_UNIT,
+    { "work-units", "revive->upool{thread,task,revive_to}", "ABT_thread_revive", Q, F_UNIT,
       ENV_STD, 3, 0, NULL, c_revive, u_revive, NULL },
-    { "unit-state", "migrate{to_pool,to_sched,to_xstream,uunit,blocked}",
+    { "work-units", "migrate{to_pool,to_sched,to_xstream,uunit,blocked}",
       "ABT_thread_migrate_to", Q, 0, ENV_STD, 5, 3, NULL, c_migrate, u_migrate,
       NULL },
-    { "unit-state:other-environments", "migrate:keytable64{..}", "ABT_thread_migrate_to", 0, 0, ENV_KT64, 5, 1,
+    { "other-environments", "migrate:keytable64{..}", "ABT_thread_migrate_to", 0, 0, ENV_KT64, 5, 1,
       NULL, c_migrate, u_migrate, NULL },
-    { "unit-state:other-environments", "migrate:external{..}", "ABT_thread_migrate_to", 0, F_EXT, ENV_STD, 5, 0,
+    { "other-environments", "migrate:external{..}", "ABT_thread_migrate_to", 0, F_EXT, ENV_STD, 5, 0,
       NULL, c_migrate, u_migrate, NULL },
-    { "unit-state", "set_callback{queued,uunit,blocked}", "ABT_thread_set_callback", Q, 0,
+    { "work-units", "set_callback{queued,uunit,blocked}", "ABT_thread_set_callback", Q, 0,
       ENV_STD, 3, 3, NULL, c_set_callback, NULL, NULL },
-    { "unit-state", "set_specific{new_table,chain,key_set,blocked,self}",
+    { "work-units", "set_specific{new_table,chain,key_set,blocked,self}",
       "ABT_thread_set_specific", Q, 0, ENV_STD, 5, 3, p_keys, c_set_specific,
       u_set_specific, af_keys },
-    { "unit-state", "set_specific:keytable64{..}", "ABT_thread_set_specific", Q, 0, ENV_KT64,
+    { "work-units", "set_specific:keytable64{..}", "ABT_thread_set_specific", Q, 0, ENV_KT64,
       5, 1, p_keys, c_set_specific, u_set_specific, af_keys },
-    { "unit-state:other-environments", "set_specific:external{new_table,chain}", "ABT_thread_set_specific", 0,
+    { "other-environments", "set_specific:external{new_table,chain}", "ABT_thread_set_specific", 0,
       F_EXT, ENV_STD, 2, 0, p_keys, c_set_specific, u_set_specific, af_keys },
-    { "unit-state", "set_associated_pool->upool{thread,push_thread,push_unit,terminated}",
+    { "work-units", "set_associated_pool->upool{thread,push_thread,push_unit,terminated}",
       "ABT_thread_set_associated_pool", Q, F_UNIT, ENV_STD, 4, 0, p_popped,
       c_set_assoc, u_set_assoc, af_popped },
-    { "unit-state", "pool_push_threads->upool{2,mixed,66}", "ABT_pool_push_threads", Q, F_UNIT, ENV_STD, 3, 0,
+    { "work-units", "pool_push_threads->upool{2,mixed,66}", "ABT_pool_push_threads", Q, F_UNIT, ENV_STD, 3, 0,
       p_push_many, c_push_threads, u_push_threads, af_push_threads },
-    { "unit-state", "self_schedule->upool", "ABT_self_schedule", Q, F_UNIT, ENV_STD, 1, 0,
+    { "work-units", "self_schedule->upool", "ABT_self_schedule", Q, F_UNIT, ENV_STD, 1, 0,
       p_popped, c_self_schedule, u_self_schedule, af_popped },
-    { "unit-state", "self_schedule:pending_migration->upool", "ABT_self_schedule", Q,
+    { "work-units", "self_schedule:pending_migration->upool", "ABT_self_schedule", Q,
       F_FALLBACK | F_UNIT, ENV_STD, 1, 0, p_pending_migration,
       c_schedule_migrating, u_schedule_migrating, NULL },
-    { "unit-state", "thread_get_attr{ult,primary,blocked}", "ABT_thread_get_attr", Q, 0, ENV_STD,
+    { "work-units", "thread_get_attr{ult,primary,blocked}", "ABT_thread_get_attr", Q, 0, ENV_STD,
       3, 0, NULL, c_get_attr, u_get_attr, NULL },
     /* --- synchronisation objects, keys, timers, attributes */
     { "sync-objects", "mutex_create{plain,attr}", "ABT_mutex_create", Q, 0, ENV_STD, 2, 0, NULL,
@@ -1427,12 +1427,12 @@ static const scen_t scens[] = {
       c_timer_create, u_timer, NULL },
     { "sync-objects", "key_create{plain,dtor}", "ABT_key_create", Q, 0, ENV_STD, 2, 0, NULL,
       c_key_create, u_key, NULL },
-    { "attr+info", "thread_attr_create", "ABT_thread_attr_create", Q, 0, ENV_STD, 1, 0, NULL,
+    { "init+streams+scheds+pools", "thread_attr_create", "ABT_thread_attr_create", Q, 0, ENV_STD, 1, 0, NULL,
       c_thread_attr_create, u_thread_attr, NULL },
     /* --- info */
-    { "attr+info", "info_print{stacks_in_pool,stacks_in_upool,xstreams,config,pool}",
+    { "init+streams+scheds+pools", "info_print{stacks_in_pool,stacks_in_upool,xstreams,config,pool}",
       "ABT_info_print", Q, 0, ENV_STD, 5, 0, NULL, c_info_stacks, NULL, NULL },
-    { "attr+info", "info_trigger_print_all_thread_stacks+yield",
+    { "init+streams+scheds+pools", "info_trigger_print_all_thread_stacks+yield",
       "ABT_info_trigger_print_all_thread_stacks", Q, F_FALLBACK, ENV_STD, 1, 0,
       NULL, c_info_trigger, NULL, NULL },
 };
